@@ -760,6 +760,10 @@ def unpack_dataclass(spec: ValueSpec) -> Optional[Expression]:
             return f"{cls_alias}.{method_name}({method_args})"
         else:
             method_name_alias = f"{cls_alias}_{method_name}"
+            if not hasattr(spec.attrs, method_name):
+                # the class refers to itself and its method is being built
+                # right now: look it up on the holder at call time
+                return f"{spec.cls_attrs_name}.{method_name}({method_args})"
             spec.builder.ensure_object_imported(
                 getattr(spec.attrs, method_name),
                 method_name_alias,
